@@ -51,6 +51,11 @@ Proof.
     try destruct (l_inst t); try destruct (l_inst p); reflexivity.
 Qed.
 
+Lemma inconsistent_topic_is_rule :
+  forall t p, dispatch_inconsistent_topic t p =
+    map (fun c => (match fst c with Group => Participant | w => w end, snd c)) (spec_calls KIT t no_l p).
+Proof. intros t p. rewrite inconsistent_topic_eq_spec. apply spec_topic_is_rule. Qed.
+
 (* ------------------------------------------------------------------ new data *)
 Lemma data_eq_spec_unless_fallback :
   forall r s p, needs_da_fallback r s p = false -> dispatch_data r s p = spec_data r s p.
@@ -242,6 +247,20 @@ Lemma run_events_length : forall c es, (length (run_events c es) <= length es)%n
 Proof.
   intros c es. unfold run_events. induction es as [|e t IH]; [cbn; lia|].
   cbn [flat_map length]. rewrite app_length. pose proof (dispatch_ev_at_most_one c e). lia.
+Qed.
+
+Lemma run_history_eq_spec :
+  forall h, existsb (fun we => ev_known (fst we) (snd we)) h = false -> run_history h = spec_history h.
+Proof.
+  intros h. unfold run_history, spec_history. induction h as [|[w e] t IH]; intros H; [reflexivity|].
+  cbn [existsb fst snd] in H. apply orb_false_iff in H. destruct H as [He Ht].
+  cbn [flat_map fst snd]. rewrite (dispatch_ev_eq_spec _ _ He), (IH Ht). reflexivity.
+Qed.
+
+Lemma run_history_length : forall h, (length (run_history h) <= length h)%nat.
+Proof.
+  intros h. unfold run_history. induction h as [|[w e] t IH]; [cbn; lia|].
+  cbn [flat_map length fst snd]. rewrite app_length. pose proof (dispatch_ev_at_most_one w e). lia.
 Qed.
 
 (* the finite decision table, as a check of the whole table by computation: for the 2^6
